@@ -46,6 +46,46 @@ CLAIMED = {
              'as an oracle input; CLI-vs-library equality is differential testing, not a theorem.',
         technique='Coq proof over code translated from source on every run + exhaustive correspondence through argparse/main'),
 }
+
+CLAIMED.update({
+    'C11': dict(
+        text='Theorem C11_minimal (closed under the global context), for ALL pairs of strings of any length: the characters the model of '
+             'string_edit_distance keeps are a common subsequence of both strings of maximal length (no common subsequence is longer), no '
+             'unequal characters are paired, and removed+inserted = |s|+|t|-2*LCS, which no script pairing only equal characters beats '
+             '(C11_fewest_marks); the uint16 wrap of the path-length cells is part of the model and shown irrelevant. The model is the '
+             'EditDistance matrix engine over the _best_match decision translated from source on every run; it is tied to the code by EXACT '
+             'cost-and-script correspondence on exhaustive small alphabets plus sampled long strings, and holds_C11 (proved sound) is '
+             "evaluated on the implementation's own scripts.",
+        design_ref='5.11',
+        note='Trusted: Coq kernel + VM; translator gen_ed.py (_best_match, dispatch); hand-written matrix engine tied by exact script '
+             'correspondence; the incremental fringe/tighten schedule of EditDistance is not modelled here (big-step final matrix; see C04/C05).',
+        technique='Coq proof (LCS characterisation, cell-by-cell induction over the translated _best_match) + exact script correspondence'),
+    'C12': dict(
+        text='Theorems C12_json / C12_json5 (closed under the global context): for every layout and every document of the stated domain (any '
+             'nesting, every code point incl. lone surrogates, arbitrary number tokens, empty containers) parsing the model printer\'s output '
+             'gives back the document; the string codec is proved at full strength with its necessary hypothesis, JSON5 is refuted for astral '
+             'characters (open finding D17) and proved on the BMP. The printer model is tied byte-exactly to JSONFormatter on every run and the '
+             'model parsers to json.loads / json5.loads; CSV, YAML, plist and XML are decided on this tier by byte-exact model/print '
+             'correspondence (CSV) and by print-reload equality through the real loaders only (no theorem yet) - stated in the evidence.',
+        design_ref='5.12',
+        note='Trusted: Coq kernel + VM; json/json5/csv/PyYAML/plistlib/ElementTree as oracles (tested on every printed text); number tokens are '
+             'opaque (json.dumps of the scalar supplied and checked by the harness); YAML/plist/XML/CSV round trips are correspondence + reload '
+             'only. Open findings: D15 (YAML empty containers/strings), D17 (JSON5 astral).',
+        technique='Coq proof (codec round trip by induction on strings and documents) + byte-exact printer/parser correspondence + reload through the real loaders'),
+    'C19': dict(
+        text='Theorems over a stack-machine model of Expression.eval/get_value/get_member for ARBITRARY RPN token lists, heaps and locals: '
+             'every attribute read the evaluator itself performs passed the translated guard and is not private, every resolved name is a '
+             'given variable or whitelisted (C19_direct, unconditional); the full property holds for expressions that do not reach '
+             'str.format/format_map over plain-data environments (C19_partial) and is refuted otherwise (C19_refuted_if_not: open finding '
+             'D12; C19_needs_clean_env: open finding D20, generator frames). Guard, whitelist and operator table are re-translated from '
+             'expressions.py on every run; the model is tied by differential evaluation of grammar-generated and mutated expressions over '
+             'tripwired objects (values, exception classes and recorded private reads must agree).',
+        design_ref='5.19',
+        note='Trusted: Coq kernel + VM; translator gen_expr.py; the hand-audited capability table of built-in callables (only str.format / '
+             'format_map read attributes named by data) - an assumption of the theorems, probed on every run by applying every whitelisted '
+             'built-in and public member to tripwired objects; built-in callables are summarised, not modelled (partial).',
+        technique='Coq proof (invariant over the evaluator\'s event log by induction on the RPN) + differential evaluation with tripwired objects'),
+})
 NOT_YET = 'model and theorem not completed yet (DESIGN.md section 7)'
 NA = {}
 
